@@ -144,7 +144,7 @@ func c09ApplyI(ops []c09Op, interleave bool) (w *c09World, ok bool) {
 
 func c09Eligible(pairs []string, hdr map[string]string) bool {
 	for i := 0; i+1 < len(pairs); i += 2 {
-		v := hdr[pairs[i]]
+		v := hdr[http.CanonicalHeaderKey(pairs[i])] // as http.Header.Get looks it up
 		if v == "" {
 			return false
 		}
@@ -351,6 +351,85 @@ func c09Run(r *core.Run) {
 	r.Notes["depth_completed"] = d
 	if d < depth {
 		r.NotExhaustive("internal deadline")
+	}
+	c09Respecify(r)
+}
+
+// c09Prefixes are the registrations under the re-specification histories: one route, and two routes that
+// compete for some request (so that a constraint set leaking from one to the other changes an answer).
+var c09Prefixes = [][]c09Op{
+	{{Kind: "reg", Route: "/s", API: "Get"}},
+	{{Kind: "reg", Route: "/o/?t", API: "Any"}},
+	{{Kind: "reg", Route: "/e/?{x}", API: "Routes(GET,POST)"}},
+	{{Kind: "reg", Route: "/s", API: "Get"}, {Kind: "reg", Route: "/d/{x}", API: "Get"}},
+	{{Kind: "reg", Route: "/o/?t", API: "Get"}, {Kind: "reg", Route: "/{m: **}", API: "Any"}},
+	{{Kind: "reg", Route: "/o/t", API: "Routes(GET;POST)"}, {Kind: "reg", Route: "/o/?{y}", API: "Get"}},
+}
+
+// c09Respecify: "specifying constraints again replaces the previous set" over longer histories than the
+// BFS reaches: on each prefix, EVERY sequence of up to k Headers(i,set) operations, then the whole probe set.
+func c09Respecify(r *core.Run) {
+	kOne, kTwo := 4, 3
+	if r.Thorough() {
+		kOne, kTwo = 6, 5
+	}
+	r.Bounds["respecification_histories"] = fmt.Sprintf("%d registration prefixes x every sequence of <=%d (one route) / <=%d (two routes) Headers() calls over %d constraint sets", len(c09Prefixes), kOne, kTwo, len(c09HdrSets))
+	type job struct {
+		pre   []c09Op
+		first c09Op
+		k     int
+	}
+	var jobs []job
+	hops := func(pre []c09Op) []c09Op {
+		var out []c09Op
+		for i := range pre {
+			for _, h := range c09HdrSets {
+				out = append(out, c09Op{Kind: "headers", Target: i, Pairs: h})
+			}
+		}
+		return out
+	}
+	for _, pre := range c09Prefixes {
+		k := kOne
+		if len(pre) == 2 {
+			k = kTwo
+		}
+		for _, f := range hops(pre) {
+			jobs = append(jobs, job{pre, f, k})
+		}
+	}
+	r.Parallel(func(wk, nw int, l *core.Local) {
+		m := ref.NewMatcher()
+		for ji := wk; ji < len(jobs); ji += nw {
+			j := jobs[ji]
+			alphabet := hops(j.pre)
+			var rec func(seq []c09Op)
+			rec = func(seq []c09Op) {
+				if r.Expired() {
+					return
+				}
+				hist := append(append([]c09Op{}, j.pre...), seq...)
+				w, ok := c09Apply(hist)
+				if !ok {
+					return
+				}
+				l.States++
+				l.Transitions++
+				l.Traces++
+				l.Extra["respecification_histories"]++
+				c09Probe(m, w, hist, l)
+				if len(seq) == j.k {
+					return
+				}
+				for _, o := range alphabet {
+					rec(append(seq[:len(seq):len(seq)], o))
+				}
+			}
+			rec([]c09Op{j.first})
+		}
+	})
+	if r.Expired() {
+		r.NotExhaustive("internal deadline (re-specification histories)")
 	}
 }
 
